@@ -216,7 +216,8 @@ func (c *context) getReduceTypeForGeneratedRule(
 		case *lr1.Rule:
 			return c.RuleGoTypes[termC]
 		case *lr1.Terminal:
-			return c.TokenType
+			// Token, or Error for @error.
+			return c.getTermGoType(termC)
 		default:
 			panic("not-reached")
 		}
@@ -249,7 +250,8 @@ func (c *context) getReduceTypeForGeneratedRule(
 		case *lr1.Rule:
 			typeC = c.RuleGoTypes[termC]
 		case *lr1.Terminal:
-			typeC = c.TokenType
+			// Token, or Error for @error.
+			typeC = c.getTermGoType(termC)
 		default:
 			panic("not-reached")
 		}
